@@ -1164,9 +1164,23 @@ func (e *Extractor) ExtractInnerForReverseSearch(re *syntax.Regexp) *InnerLitera
 	//  4. Has wildcards after it
 	for i := 1; i < len(re.Sub)-1; i++ {
 		// Check if this sub-expression has extractable literals
+		// The pattern is split in front of element i, so every match of the part
+		// from element i on has to BEGIN with one of the literals: they must be
+		// prefix literals of the element, not literals from somewhere inside it
+		// (for .*(.foo)x? the inner "foo" is preceded by one more character of
+		// the same element, and the split search never matched there).
 		e.dropped = false
-		literals := e.extractInner(re.Sub[i], 0)
-		if literals.IsEmpty() || e.dropped {
+		literals := e.ExtractPrefixes(re.Sub[i])
+		if literals.IsEmpty() || e.dropped || literals.IsPartialCoverage() {
+			continue
+		}
+		hasEmptyLiteral := false
+		for k := 0; k < literals.Len(); k++ {
+			if len(literals.Get(k).Bytes) == 0 {
+				hasEmptyLiteral = true
+			}
+		}
+		if hasEmptyLiteral {
 			continue
 		}
 
